@@ -1,4 +1,4 @@
-CONSTANTS MaxKeys = 2  FullWindows = FALSE  Rich = FALSE
+CONSTANTS MaxKeys = 2  FullWindows = FALSE  Rich = FALSE  FullInv = FALSE
 SPECIFICATION Spec
 INVARIANT OracleInv
 ACTION_CONSTRAINT Emit
